@@ -105,11 +105,11 @@ def main():
         t = tests()
         line = "%-42s tests=%s" % (name, t)
         print(line, flush=True)
-        for pid in ("KVC02", "KVC09", "KVC14"):
+        for pid in ("KVC02", "KVC09", "KVC14", "KVC13"):
             rc, nv, desc = check(pid)
             print("    %s exit=%d violations=%d %s" % (pid, rc, nv, desc), flush=True)
     apply(None)
-    sh("./check KVC02; ./check KVC09; ./check KVC14", cwd=ROOT)      # regenerate Gen/ from /repo
+    sh("./check KVC02; ./check KVC09; ./check KVC14; ./check KVC13", cwd=ROOT)      # regenerate Gen/ from /repo
 
 
 if __name__ == "__main__":
